@@ -32,17 +32,18 @@ Definition call_steps (c : cid) : list (cid * label) :=
 
 Definition last_res (l : list (op * result)) : result := snd (last l (OSetHead 0 0, ROther)).
 
-Fixpoint run_acts (w : world) (acts : list action) (cfg : config) (acc : list result) : config * list result :=
+Fixpoint run_acts (w : world) (acts : list action) (cfg : config) : config * list result :=
   match acts with
-  | [] => (cfg, rev acc)
-  | ARebase c :: t => run_acts w t (step w cfg (c, SRebase)) acc
+  | [] => (cfg, [])
+  | ARebase c :: t => run_acts w t (step w cfg (c, SRebase))
   | AOp c o :: t =>
     let cfg' := run w (call_steps c) cfg in
-    run_acts w t cfg' (last_res (c_done (g_clients cfg' c)) :: acc)
+    let '(cf, rs) := run_acts w t cfg' in
+    (cf, last_res (c_done (g_clients cfg' c)) :: rs)
   end.
 
 Definition model_obs (i : input) : obs :=
-  let '(cfg, rs) := run_acts (i_world i) (i_acts i) (init (i_m0 i) (progs_of (i_acts i))) [] in
+  let '(cfg, rs) := run_acts (i_world i) (i_acts i) (init (i_m0 i) (progs_of (i_acts i))) in
   {| o_results := rs; o_final := g_refs cfg |}.
 
 Fixpoint results_eqb (a b : list result) : bool :=
